@@ -25,7 +25,19 @@ def budget(tier):
 
 @st.composite
 def strategy_(draw):
-    spec = dict(draw(gen.map_cases()))
+    mode = draw(st.integers(0, 15))
+    if mode == 0:
+        # a wide taxonomy (more than 128 nodes at one level)
+        tree = draw(gen.trees(max_levels=2, max_leaves=180, min_leaves=130))
+        spec = dict(draw(gen.map_cases(tree=tree, max_cells=5)))
+    else:
+        spec = dict(draw(gen.map_cases()))
+    if mode == 1:
+        # many cells: chunk boundaries with 1-, 2- and 3-digit row numbers
+        n_big = draw(st.integers(100, 160))
+        spec['query'] = dict(spec['query'], cells=[f'c{i}' for i in range(n_big)], zero_rows=[])
+        spec['cfg'] = dict(spec['cfg'], chunk_size=draw(st.sampled_from([7, 10, 33, 50, 99])),
+                           n_processors=draw(st.integers(1, 4)), bootstrap_iteration=2)
     spec['driver'] = draw(st.sampled_from(['run_mapping', 'run_mapping', 'run_mapping', 'direct_manager', 'direct_buffer']))
     return spec
 
@@ -113,6 +125,10 @@ def check(spec):
     if active_drop:
         classes.append('drop_top' if cfg['drop_level'] == h[0] else 'drop_mid')
     classes.append('enc_' + spec['query']['enc'])
+    if max(len(spec['tree'][lv]) for lv in h) > 128:
+        classes.append('level_with_more_than_128_nodes')
+    if n >= 100:
+        classes.append('query_of_100_or_more_cells')
     return Case(nontrivial, classes)
 
 
